@@ -524,6 +524,15 @@ def run(project: Project, rep, tier: str):
         rep.note("LX-SWEEP could not follow the sweep: " + (pre.errors[0] if pre.errors else "")[:200])
     else:
         check_sweep(project, rep, max_bars=3, sample3=1500 if tier == "thorough" else 200)
+    # LX-DTYPE: the landscape of a diagram is a function of its numbers, not of their numpy dtype — no sum / product / difference
+    # of two caller arrays is formed while the operands still have the caller's integer dtype (rules/intarith_rule.py), and no
+    # float is stored into an array typed by the diagram (rules/dtype_rule.py), in the module of the exact landscape
+    from . import dtype_rule as _dt
+    _fns = [f_ for q_, f_ in sorted(project.functions.items()) if q_.startswith("persim.landscapes.exact.") and f_.parent is None
+            and isinstance(f_.node, (ast.FunctionDef, ast.AsyncFunctionDef))]
+    if _fns:
+        _dt.run_on(project, rep, "LX-DTYPE", _fns)
+    rep.floor("LX-DTYPE", 1)
     soft = getattr(rep, "soft_rules", set())
     for rn, n in (("LX-COPY", 1), ("LX-SORT", 1), ("LX-ITER", 1), ("LX-DEG", 2), ("LX-NOCOPY", 1), ("LX-INSERT", 1),
                   ("LX-SWEEP", 0 if st_sweep == "unmodelled" else 1)):
